@@ -1,9 +1,46 @@
 (* C08 — active task is always the running one; scheduler is clean after any outcome.
-   Statements only; proofs in proofs/MachineC08.v.  The hypothesis [no_unwind] says that no Python
-   exception propagated through asynq's own frames during the run; in the model such unwinding
-   starts only at the MAX_TASK_STACK_SIZE guard (covered by C08_guard_resets) or at
-   FutureIsAlreadyComputed raised by _queue_exit. *)
-From Asynq Require Import Machine proofs.MachineC08.
+   Statements only; proofs in proofs/MachineC08.v (first five theorems) and proofs/MachineC08U.v (the rest).
+   All theorems are about the executable machine of Machine.v and hold for EVERY program (nested synchronous
+   calls `Let`/`Sync` included; no tree restriction), every parameter record, flush oracle and fuel.
+
+   Exceptions unwind through asynq's own frames from two places only (C08_unwind_sources): the
+   MAX_TASK_STACK_SIZE guard (RuntimeError, E_RUNTIME) and _queue_exit (FutureIsAlreadyComputed, E_ALREADY).
+     [no_unwind P n c]          no unwinding at all during the first n steps          (MachineC08.v)
+     [guard_unwind_only P n c]  the only exception that unwinds is the guard's        (MachineC08U.v)
+   no_unwind implies guard_unwind_only (C08_no_unwind_is_guard_only), so the first two theorems below are
+   special cases of C08_active_is_running_U / C08_clean_after_outcome_U.
+
+   PROVED (under guard_unwind_only, from `start h s` with an empty task stack):
+   * C08_active_is_running_U: at every `MRun t p` reached, active_task = Some t - also in a task that caught
+     the guard's RuntimeError after its nested synchronous call tripped the guard (C08_guard_caught gives that
+     episode step by step; C08_guard_frames: between the guard and the catching value() call there are only
+     one _execute and one wait_for frame, never a _continue_with_task frame).
+   * C08_clean_after_outcome_U: at `MDone o` (value, exception delivered through value(), or the guard's
+     RuntimeError - caught by some task or escaped to the top): tasks = [], active_task as before the call,
+     and the set of scheduled batches is [] or exactly what it was before the call.
+   * C08_fresh_after_outcome: if additionally sb = [] and active = None before (sched_fresh), the scheduler is
+     sched_fresh again.  C08_clean_after_task_outcome: if the root is a task that is not computed yet, sb = []
+     afterwards whatever it was before (the call enters wait_for, whose end drops the scheduled batches).
+   * The hypothesis cannot be dropped: C08_clean_sb_any_root_is_false refutes "sb = [] afterwards for any
+     root and any initial sb" (value() on a computed / non-task future never enters wait_for and never
+     touches the scheduler, so batches scheduled before stay).  This is not a defect of asynq: by the theorems
+     above no computation that ends leaves a scheduled batch, so no top-level call starts with one.
+   * C08_run_root_fresh / C08_run_history_fresh: run_root on a fresh scheduler that ends yields a fresh
+     scheduler and the event `EvSched 0 0 None`; so does every history whose computations all end and unwind
+     only through the guard (history_ok).
+   * Non-vacuity: C08_guard_caught_run (corpus _GUARD_CAUGHT: guard_unwind_only holds, no_unwind does NOT,
+     the probes in the catching task show Some [1]) and C08_guard_escapes_run (_GUARD_BATCH: the RuntimeError
+     escapes with a batch scheduled; the next computation flushes only its own batch).
+
+   NOT proved:
+   * anything about runs in which FutureIsAlreadyComputed (E_ALREADY, raised by _queue_exit in
+     MResume / MRun) unwinds: MUnwind pops _continue_with_task frames without restoring active_task and
+     leaves the task stack as it is, the invariant says nothing there;
+   * runs that do not reach MDone within the fuel;
+   * "the next computation behaves as on a fresh scheduler" as an equality of traces between the second
+     computation of a history and the same computation on st0 (here: the scheduler-owned fields tasks / sb /
+     active are those of st0; heap, batch registry, scoped values and the id counter are user state). *)
+From Asynq Require Import Machine proofs.MachineC08 proofs.MachineC08U.
 
 Theorem C08_active_is_running : forall P h s n t p,
   tasks s = [] -> no_unwind P n (start h s) ->
@@ -35,3 +72,100 @@ Theorem C08_hypotheses_satisfiable :
   c_mode (run demo_P 200 demo_start) = MDone (Ok (VInt 5)).
 Proof. exact demo_runs_clean. Qed.
 Print Assumptions C08_hypotheses_satisfiable.
+
+(* ------------------------------------------------------------------ proofs/MachineC08U.v *)
+Theorem C08_no_unwind_is_guard_only : forall P n c, no_unwind P n c -> guard_unwind_only P n c.
+Proof. exact no_unwind_guard_only. Qed.
+Print Assumptions C08_no_unwind_is_guard_only.
+
+Theorem C08_unwind_sources : forall P c e,
+  is_unwind (c_mode c) = false -> c_mode (step P c) = MUnwind e ->
+  (e = E_RUNTIME /\ c_mode c = MExecLoop) \/
+  (e = E_ALREADY /\ exists t, c_mode c = MResume t \/ exists p, c_mode c = MRun t p).
+Proof. exact unwind_sources. Qed.
+Print Assumptions C08_unwind_sources.
+
+Theorem C08_guard_frames : forall fr, shape TE fr ->
+  exists i r fr', fr = FExec i :: FWait r :: fr' /\
+    (fr' = [FTop] \/ exists t k old fr'', fr' = FValue t k :: FCont t old :: fr'' /\ shape TE fr'').
+Proof. exact guard_frames. Qed.
+Print Assumptions C08_guard_frames.
+
+Theorem C08_step_preserves_Inv2 : forall a0 sb0 P c,
+  (forall e, c_mode c = MUnwind e -> e = E_RUNTIME) -> Inv2 a0 sb0 c -> Inv2 a0 sb0 (step P c).
+Proof. exact step_inv2. Qed.
+Print Assumptions C08_step_preserves_Inv2.
+
+Theorem C08_active_is_running_U : forall P h s n t p,
+  tasks s = [] -> guard_unwind_only P n (start h s) ->
+  c_mode (run P n (start h s)) = MRun t p -> active (c_st (run P n (start h s))) = Some t.
+Proof. exact active_is_running_U. Qed.
+Print Assumptions C08_active_is_running_U.
+
+Theorem C08_clean_after_outcome_U : forall P h s n o,
+  tasks s = [] -> guard_unwind_only P n (start h s) ->
+  c_mode (run P n (start h s)) = MDone o ->
+  active (c_st (run P n (start h s))) = active s /\ tasks (c_st (run P n (start h s))) = [] /\
+  (sb (c_st (run P n (start h s))) = [] \/ sb (c_st (run P n (start h s))) = sb s).
+Proof. exact clean_after_outcome_U. Qed.
+Print Assumptions C08_clean_after_outcome_U.
+
+Theorem C08_fresh_after_outcome : forall P h s n o,
+  sched_fresh s -> guard_unwind_only P n (start h s) ->
+  c_mode (run P n (start h s)) = MDone o -> sched_fresh (c_st (run P n (start h s))).
+Proof. exact fresh_after_outcome. Qed.
+Print Assumptions C08_fresh_after_outcome.
+
+Theorem C08_clean_after_task_outcome : forall P h s n o out tk,
+  tasks s = [] -> get h s = Some (mkFut out (KTask tk)) -> computed h s = false ->
+  guard_unwind_only P n (start h s) ->
+  c_mode (run P n (start h s)) = MDone o ->
+  active (c_st (run P n (start h s))) = active s /\ tasks (c_st (run P n (start h s))) = [] /\
+  sb (c_st (run P n (start h s))) = [].
+Proof. exact clean_after_task_outcome. Qed.
+Print Assumptions C08_clean_after_task_outcome.
+
+Theorem C08_clean_sb_any_root_is_false : ~ clean_sb_any_root_statement.
+Proof. exact clean_sb_any_root_is_false. Qed.
+Print Assumptions C08_clean_sb_any_root_is_false.
+
+Theorem C08_guard_caught : forall P a0 i r t k fr s,
+  Inv a0 (mkC MExecLoop (FExec i :: FWait r :: FValue t k :: fr) s) ->
+  (i < length (tasks s))%nat -> (p_maxstack P < Z.of_nat (length (tasks s)))%Z ->
+  let c' := run P 4 (mkC MExecLoop (FExec i :: FWait r :: FValue t k :: fr) s) in
+  c_mode c' = MRun t (k (Err E_RUNTIME)) /\ c_frames c' = fr /\
+  active (c_st c') = Some t /\ tasks (c_st c') = [] /\ sb (c_st c') = [].
+Proof. exact guard_caught. Qed.
+Print Assumptions C08_guard_caught.
+
+Theorem C08_run_root_fresh : forall P fuel p s o s',
+  sched_fresh s -> guard_unwind_only P fuel (root_start p s) ->
+  run_root P fuel p s = (Some o, s') ->
+  sched_fresh s' /\ exists tr, trace s' = EvSched 0 0 None :: tr.
+Proof. exact run_root_fresh. Qed.
+Print Assumptions C08_run_root_fresh.
+
+Theorem C08_run_history_fresh : forall P fuel ps s,
+  sched_fresh s -> history_ok P fuel ps s -> sched_fresh (snd (run_history P fuel ps s)).
+Proof. exact run_history_fresh. Qed.
+Print Assumptions C08_run_history_fresh.
+
+Theorem C08_guard_caught_run :
+  guard_unwind_only caught_P 200 caught_start /\
+  ~ no_unwind caught_P 200 caught_start /\
+  c_mode (run caught_P 200 caught_start) = MDone (Ok (VInt 7)) /\
+  probes (c_st (run caught_P 200 caught_start)) =
+    [EvGot [1] (Err E_RUNTIME); EvProbe [1] (Some [1]); EvProbe [1] (Some [1]);
+     EvGot [0] (Ok (VInt 7)); EvProbe [0] (Some [0])] /\
+  sched_fresh (c_st (run caught_P 200 caught_start)).
+Proof. exact guard_caught_run. Qed.
+Print Assumptions C08_guard_caught_run.
+
+Theorem C08_guard_escapes_run :
+  history_ok caught_P 200 [escape_prog; next_prog] (st0 caught_P) /\
+  fst (run_history caught_P 200 [escape_prog; next_prog] (st0 caught_P)) = [Some (Err E_RUNTIME); Some (Ok (VInt 6))] /\
+  filter (fun e => match e with EvSched _ _ _ | EvFlush _ _ _ => true | _ => false end)
+         (snd (run_case caught_P 200 [escape_prog; next_prog])) =
+    [EvSched 0 0 None; EvFlush 1 0 [[7]]; EvSched 0 0 None].
+Proof. exact guard_escapes_run. Qed.
+Print Assumptions C08_guard_escapes_run.
